@@ -123,16 +123,23 @@ func (sel *Selection) makeCopy() (*Selection, error) {
 }
 
 func (sel *Selection) selekt(r *ChildRequest) (*Selection, error) {
+	child, _, err := sel.selektOrHidden(r)
+	return child, err
+}
+
+// selektOrHidden is selekt that tells a child that is not there from one that is there but hidden
+// by a constraint (its 'when' is false)
+func (sel *Selection) selektOrHidden(r *ChildRequest) (*Selection, bool, error) {
 	// check pre-constraints
 	if proceed, constraintErr := sel.Constraints.CheckContainerPreConstraints(r); !proceed || constraintErr != nil {
-		return nil, constraintErr
+		return nil, false, constraintErr
 	}
 
 	// select node
 	var child *Selection
 	childNode, err := sel.Node.Child(*r)
 	if err != nil || childNode == nil {
-		return nil, err
+		return nil, false, err
 	}
 	child = &Selection{
 		Browser:     sel.Browser,
@@ -147,10 +154,10 @@ func (sel *Selection) selekt(r *ChildRequest) (*Selection, error) {
 
 	// check post-constraints
 	if proceed, constraintErr := sel.Constraints.CheckContainerPostConstraints(*r, child); !proceed || constraintErr != nil {
-		return nil, constraintErr
+		return nil, constraintErr == nil, constraintErr
 	}
 
-	return child, nil
+	return child, false, nil
 }
 
 type ListItem struct {
